@@ -153,7 +153,7 @@ func inPlaceOnce(root string, id int, oldDir string, patch []byte, oldSnap map[s
 		return
 	}
 	untouched = true
-	ar := realApplyPatch(patch, applyOpts{Bowl: "overlay", OldDir: work, StageDir: filepath.Join(ws, "stage"), BeforeCommit: func() {
+	ar := realApplyPatch(patch, applyOpts{Bowl: "overlay", OldDir: work, StageDir: filepath.Join(ws, "stage"), OldEOF: len(patch)%2 == 1, BeforeCommit: func() {
 		s, _ := snapshot(work)
 		untouched = len(diffSnap(oldSnap, s)) == 0
 	}})
